@@ -3,6 +3,7 @@ module verifsim
 go 1.26.8
 
 require (
+	github.com/anishathalye/porcupine v1.3.0
 	github.com/oneconcern/datamon v0.0.0
 	github.com/segmentio/ksuid v1.0.4
 	github.com/spf13/afero v1.9.3
